@@ -267,6 +267,14 @@ def load_known():
     return []
 
 
+def _freeze(case):
+    """snapshot of a case at the moment it is reported (generators may reuse and mutate the objects they yielded)"""
+    try:
+        return json.loads(json.dumps(case, default=str))
+    except Exception:
+        return case
+
+
 class Report:
     def __init__(self, prop_id, tier, seed):
         self.prop, self.tier, self.seed = prop_id, tier, seed
@@ -290,19 +298,20 @@ class Report:
         if len(self.cov["samples"]) < 5 and self.cov["evaluations"] % 97 in (1, 2, 3, 4, 5):
             self.cov["samples"].append(case)
 
-    def finding(self, key, what, case, kind="property-violation", expected=None, observed=None):
+    def finding(self, key, what, case, kind="property-violation", expected=None, observed=None, stage=None):
         """A concrete failing input of the property on the real implementation."""
         if key in self.known:
             self.known_hits.setdefault(key, what)
             return
         if any(v["key"] == key for v in self.violations):
             return
-        self.violations.append({"key": key, "what": what, "case": case, "kind": kind,
+        case = _freeze(case)
+        self.violations.append({"key": key, "what": what, "case": case, "kind": kind, "stage": stage,
                                 "expected": expected, "observed": observed, "failing_input_found": True})
 
     def tie_broken(self, name, kind, detail, case=None, expected=None, observed=None):
         """A proof obligation / translation / correspondence that no longer checks (not yet a violation)."""
-        self.broken.append({"broken": name, "kind": kind, "detail": detail, "case": case,
+        self.broken.append({"broken": name, "kind": kind, "detail": detail, "case": _freeze(case),
                             "expected": expected, "observed": observed})
 
     def finish(self, level, obligations, discharged, checker_cmd, trusted, assumptions, rule, extra=None):
@@ -381,12 +390,42 @@ def import_qib():
 # generic correspondence runner
 # ---------------------------------------------------------------------------------------------
 
+CORPUS = ROOT / "harness" / "corpus"
+
+
+def _with_corpus(rep, opname, cases):
+    """Minimised past failures run first: harness/corpus/<property>/*.json holds concrete cases (in the generator's own case format, tagged
+    with the stage they belong to) on which a seeded or historical defect manifested; they are replayed before the generated cases of
+    that stage on every run, so that detection of those defects does not depend on the random stream."""
+    rp = getattr(rep, "replay", None)
+    if rp is not None and isinstance(rp.get("case"), dict):
+        # `./check Cxx --replay <file>`: only the recorded case, in the stage it was found in
+        if rp.get("stage") in (None, opname):
+            yield rp["case"]
+        return
+    d = CORPUS / rep.prop
+    n = 0
+    if d.is_dir():
+        for f in sorted(d.glob("*.json")):
+            try:
+                e = json.loads(f.read_text())
+            except Exception:
+                continue
+            if e.get("stage") == opname and isinstance(e.get("case"), dict):
+                n += 1
+                yield e["case"]
+    if n:
+        rep.count("corpus-cases:" + opname, n)
+    yield from cases
+
+
 def run_correspondence(rep: Report, drv, cases, impl, model_req, compare, oracle, opname, batch=4000, nontrivial=None, req_uses_output=False):
     """For every case: run the real implementation (`impl`), the direct property oracle on what the
     implementation did (`oracle` -> list of (key, what)), and - when a driver is available - the Lean
     model on the same input (`model_req` -> request dict); `compare(case, impl_out, model_reply)` returns
     None or a description of the disagreement."""
     buf = []
+    cases = _with_corpus(rep, opname, cases)
 
     def flush():
         if not buf:
@@ -416,7 +455,7 @@ def run_correspondence(rep: Report, drv, cases, impl, model_req, compare, oracle
                     rep.tie_broken(opname + ":oracle", "correspondence", f"the property oracle raised {type(e).__name__}: {e} "
                                    f"({traceback.format_exc()[-300:]})", case=c, observed=pub)
             for key, what in found:
-                rep.finding(key, what, c, observed=pub)
+                rep.finding(key, what, c, observed=pub, stage=opname)
             if replies is not None:
                 r = replies[i]
                 if "err" in r:
@@ -430,6 +469,9 @@ def run_correspondence(rep: Report, drv, cases, impl, model_req, compare, oracle
         buf.clear()
 
     for c in cases:
+        # snapshot: generators may reuse and later mutate the objects they yield, and the oracle / replay of a batch runs after
+        # the generator has moved on; the snapshot is what the implementation, the model, the oracle and the replay file all see
+        c = _freeze(c)
         try:
             o = impl(c)
         except Exception as e:  # harness bug or unexpected crash: treat as broken tie, keep going
